@@ -17,6 +17,7 @@ func MessageTransformSubscriberDecorator(transform func(*Message)) SubscriberDec
 		return &messageTransformSubscriberDecorator{
 			sub:       sub,
 			transform: transform,
+			closing:   make(chan struct{}),
 		}, nil
 	}
 }
@@ -40,6 +41,9 @@ type messageTransformSubscriberDecorator struct {
 
 	transform   func(*Message)
 	subscribeWg sync.WaitGroup
+
+	closing     chan struct{}
+	closingOnce sync.Once
 }
 
 func (t *messageTransformSubscriberDecorator) Subscribe(ctx context.Context, topic string) (<-chan *Message, error) {
@@ -56,7 +60,14 @@ func (t *messageTransformSubscriberDecorator) Subscribe(ctx context.Context, top
 			verifhook.At("decorator.pump.recv", msg.UUID)
 			t.transform(msg)
 			verifhook.At("decorator.pump.before_send", msg.UUID)
-			out <- msg
+			select {
+			case out <- msg:
+			case <-ctx.Done():
+				// the subscription was cancelled and nobody reads: give the message up (it stays unsettled)
+				continue
+			case <-t.closing:
+				continue
+			}
 			verifhook.At("decorator.pump.sent", msg.UUID)
 		}
 		verifhook.At("decorator.pump.closing_out")
@@ -73,6 +84,7 @@ func (t *messageTransformSubscriberDecorator) Close() error {
 	err := t.sub.Close()
 	verifhook.At("decorator.close.inner_closed")
 
+	t.closingOnce.Do(func() { close(t.closing) })
 	t.subscribeWg.Wait()
 	verifhook.At("decorator.close.waited")
 	return err
